@@ -358,6 +358,14 @@ class Report:
         self._hashes = set()
         self.corr_broken = []     # (name, first disagreeing case)
 
+    def clean_old_replays(self):
+        if REPLAYS.exists():
+            for old in REPLAYS.glob(f"{self.pid}_*.json"):
+                try:
+                    old.unlink()
+                except OSError:
+                    pass
+
     # -- counting
     def count_case(self, case_repr, nontrivial=True):
         self.coverage["evaluations"] += 1
